@@ -137,6 +137,12 @@ MUTANTS: List[Tuple[str, List[str], List[Tuple[str, str, str]], str]] = [
      "zone attached with replace(tzinfo=) (LMT offsets)"),
     ("cron-str-offset-dropped", ["C13"], [(SR, "        elif task.cron_offset and isinstance(task.cron_offset, str):", "        elif task.cron_offset and isinstance(task.cron_offset, str) and '/' not in task.cron_offset[-6:]:")],
      "string offsets ignored for some zone names"),
+    ("cronspec-fields-swapped", ["C13"], [("taskiq/scheduler/scheduled_task/cron_spec.py", "{self.minutes} {self.hours} {self.days} {self.months} {self.weekdays}", "{self.minutes} {self.hours} {self.months} {self.days} {self.weekdays}")],
+     "CronSpec.to_cron() emits month before day-of-month"),
+    ("schedule-by-cron-offset-dropped", ["C13"], [("taskiq/kicker.py", "            cron_offset = cron.offset\n", "            cron_offset = None\n")],
+     "schedule_by_cron loses the CronSpec offset"),
+    ("schedule-by-time-naive-local", ["C14"], [("taskiq/kicker.py", "            time=time,\n        )\n        await source.add_schedule(scheduled)\n        return CreatedSchedule(self, source, scheduled)\n\n    @classmethod", "            time=time.replace(microsecond=0),\n        )\n        await source.add_schedule(scheduled)\n        return CreatedSchedule(self, source, scheduled)\n\n    @classmethod")],
+     "schedule_by_time truncates microseconds of the target time"),
     ("delay-floor", ["C14", "C15"], [(SR, "                return int(delay.total_seconds()) + 1", "                return int(delay.total_seconds())")],
      "delay rounded down: sent up to 1 s early"),
     ("horizon-second-0", ["C14"], [(SR, ".replace(second=1, microsecond=0)", ".replace(second=0, microsecond=0)")],
